@@ -374,7 +374,7 @@ func run(r *core.Run) int {
 	}
 	r.Set("cases", len(cases))
 	r.Set("behaviours", sims.TSABehaviours)
-	core.Parallel(len(cases), func(i int) {
+	r.Parallel(len(cases), func(i int) {
 		c := cases[i]
 		execute(r, c)
 		if !c.NoTSA {
